@@ -10,7 +10,8 @@ sys.path.insert(0, os.path.join(vlib.VERIF, "corr", "real"))
 import runner  # noqa: E402
 
 PROP_FILE = "Props/C18.v"
-THEOREMS = ["C18_fds", "C18_keep_list", "C18_env", "C18_status_exit", "C18_status_signal", "C18_structure"]
+THEOREMS = ["C18_fds", "C18_keep_list", "C18_env", "C18_status_exit", "C18_status_signal", "C18_structure",
+            "C18_prepared_initializer_runs_each_once_in_order", "C18_initializer_structure"]
 ASSUME = [
     "_posixsubprocess.fork_exec(close_fds=True, pass_fds=K) leaves exactly stdio and K open in the child (oracle; exercised by the real runs)",
     "'newly exec'ed interpreter' is an OS fact; import-time ordering inside CPython is not modelled",
@@ -177,8 +178,42 @@ def check_one(plan, got, res):
     return bad
 
 
+def init_differential(ctx, n):
+    """the real _chain_initializers / _ChainedInitializer on random lists of (initializer or None, args): the calls made when the result is
+    invoked the way a worker does it, against the specification of C18_prepared_initializer_runs_each_once_in_order"""
+    import random, sys
+    if sys.path[0] != vlib.REPO:
+        sys.path.insert(0, vlib.REPO)
+    import loky.initializers as LI
+    rng = random.Random(ctx.seed + 81)
+    bad = []
+    for _ in range(n):
+        k = rng.choice([0, 1, 1, 2, 2, 3, 5])
+        log = []
+        spec = []
+        items = []
+        for j in range(k):
+            args = tuple(rng.randrange(100) for _ in range(rng.choice([0, 1, 2])))
+            if rng.random() < 0.3:
+                items.append((None, args))
+            else:
+                items.append(((lambda *a, j=j: log.append((j, a))), args))
+                spec.append((j, args))
+        try:
+            init, initargs = LI._chain_initializers(items)
+            if init is not None:
+                init(*initargs)
+            elif initargs != ():
+                log.append(("initargs-without-initializer", initargs))
+        except BaseException as e:  # noqa
+            log.append(("raised", repr(e)[:80]))
+        if log != spec:
+            bad.append({"pairs": [("None" if f is None else f"init{j}", a) for j, (f, a) in enumerate(items)], "calls_made": log, "calls_wanted": spec})
+    return {"cases": n, "deviations": bad[:5], "n_deviations": len(bad)}
+
+
 def run(ctx):
-    pr = vlib.prove(ctx, PROP_FILE, ["Spawn"])
+    pr = vlib.prove(ctx, PROP_FILE, ["Spawn", "Init"])
     n = 4 if ctx.tier == "quick" else 40
     rng = random.Random(ctx.seed + 18)
     results, fails = [], []
@@ -200,6 +235,10 @@ def run(ctx):
             results.append((plan, got))
             if bad:
                 fails.append((plan, bad, got))
+    idf = init_differential(ctx, 300 if ctx.tier == "quick" else 5000)
+    if idf["n_deviations"]:
+        rp = vlib.write_replay(ctx, "initializers", {"kind": "the combined initializer does not run each initializer once, in order, with its own arguments", "detail": idf})
+        ctx.violations.append((f"initializer chain: {idf['n_deviations']} of {idf['cases']} lists deviate: {str(idf['deviations'][0])[:160]}", rp, False))
     if fails:
         plan, bad, got = fails[0]
         rp = vlib.write_replay(ctx, "real", {"kind": "worker inheritance / initialisation / status deviates", "plan": plan,
